@@ -158,4 +158,656 @@ theorem recv_step (buf : Bytes) (buflen : Nat) (cs : List Chunk) (h : buf.length
 
 theorem recvResponse_loop (cs : List Chunk) : recvLoop (recvFuel cs) [] 0 cs = recv [] 0 cs := rfl
 
+/-! ### segmentations of a byte string -/
+
+/-- the bytes carried by the data chunks of a script -/
+def bytesOf : List Chunk → Bytes
+  | [] => []
+  | .data b :: r => b ++ bytesOf r
+  | _ :: r => bytesOf r
+
+/-- `Seg cs s t`: the script `cs` is a sequence of non-empty data chunks carrying the bytes `s`, followed by the script `t` -/
+inductive Seg : List Chunk → Bytes → List Chunk → Prop
+  | nil (t : List Chunk) : Seg t [] t
+  | cons (b : Bytes) (hb : b ≠ []) {cs : List Chunk} {s : Bytes} {t : List Chunk} : Seg cs s t → Seg (.data b :: cs) (b ++ s) t
+
+theorem Seg_of_map (ds : List Bytes) (t : List Chunk) (h : ∀ d ∈ ds, d ≠ []) : Seg (ds.map .data ++ t) ds.flatten t := by
+  induction ds with
+  | nil => exact .nil t
+  | cons d ds ih =>
+    simp only [List.map_cons, List.cons_append, List.flatten_cons]
+    exact .cons d (h d (by simp)) (ih (fun x hx => h x (by simp [hx])))
+
+theorem Seg_nil_inv {cs t : List Chunk} (h : Seg cs [] t) : cs = t := by
+  generalize hs : ([] : Bytes) = s at h
+  cases h with
+  | nil => rfl
+  | cons b hb h' => simp at hs; exact absurd hs.1 hb
+
+theorem Seg_length {cs : List Chunk} {s : Bytes} {t : List Chunk} (h : Seg cs s t) : s.length + chunkBytes t ≤ chunkBytes cs := by
+  induction h with
+  | nil t => simp
+  | cons b hb h' ih => simp [chunkBytes]; omega
+
+theorem readK_seg {cs : List Chunk} {s : Bytes} {t : List Chunk} (h : Seg cs s t) (hs : s ≠ []) (space : Nat) (hsp : 0 < space) :
+    ∃ bs s' cs', readK cs space = (some (some bs), cs') ∧ bs ≠ [] ∧ bs.length ≤ space ∧ s = bs ++ s' ∧ Seg cs' s' t := by
+  cases h with
+  | nil => exact absurd rfl hs
+  | @cons b hb r s0 _ h' =>
+    have hbe : b.isEmpty = false := by simpa using hb
+    by_cases hl : b.length ≤ space
+    · exact ⟨b, s0, r, by simp [readK, hbe, hl], hb, hl, rfl, h'⟩
+    · refine ⟨b.take space, b.drop space ++ s0, .data (b.drop space) :: r, by simp [readK, hbe, hl], ?_, ?_, ?_, ?_⟩
+      · intro h0
+        have := congrArg List.length h0
+        rw [List.length_take, List.length_nil] at this; omega
+      · rw [List.length_take]; omega
+      · rw [← List.append_assoc, List.take_append_drop]
+      · refine .cons _ ?_ h'
+        intro h0
+        have := congrArg List.length h0
+        rw [List.length_drop, List.length_nil] at this; omega
+
+/-- the read loop on a script that begins with a segmentation of `s`, when the accumulated bytes end with the prompt at no byte
+    position strictly inside `s`: it reads exactly `s`, stops there if the buffer then ends with the prompt, and otherwise goes on
+    with what follows -/
+theorem recv_seg (n : Nat) : ∀ (buf : Bytes) (buflen : Nat) (cs : List Chunk) (s : Bytes) (t : List Chunk), s.length ≤ n →
+    Seg cs s t → s ≠ [] → buf.length ≤ buflen →
+    (∀ q r, s = q ++ r → q ≠ [] → r ≠ [] → endsWith (buf ++ q) prompt = false) →
+    (endsWith (buf ++ s) prompt = true ∧ recv buf buflen cs = (.ok (buf ++ s), t)) ∨
+    (endsWith (buf ++ s) prompt = false ∧ ∃ buflen', (buf ++ s).length ≤ buflen' ∧ recv buf buflen cs = recv (buf ++ s) buflen' t) := by
+  induction n with
+  | zero =>
+    intro buf buflen cs s t hn _ hs
+    exact absurd (List.eq_nil_of_length_eq_zero (by omega)) hs
+  | succ n ih =>
+    intro buf buflen cs s t hn hseg hs hb hq
+    have hg := growLen_space buf buflen hb
+    obtain ⟨bs, s', cs', hr, hbs, hbl, rfl, hseg'⟩ := readK_seg hseg hs _ hg.1
+    have hb' : (buf ++ bs).length ≤ growLen buf buflen := by simp; omega
+    rw [recv_step buf buflen cs hb, hr]
+    simp only
+    by_cases hs' : s' = []
+    · subst hs'
+      have := Seg_nil_inv hseg'
+      subst this
+      simp only [List.append_nil]
+      by_cases he : endsWith (buf ++ bs) prompt = true
+      · exact .inl ⟨he, by simp [he]⟩
+      · exact .inr ⟨by simpa using he, growLen buf buflen, hb', by simp [he]⟩
+    · have he : endsWith (buf ++ bs) prompt = false := hq bs s' rfl hbs hs'
+      simp only [he, Bool.false_eq_true, ↓reduceIte]
+      have hlen : s'.length ≤ n := by
+        have : 0 < bs.length := List.length_pos_iff.mpr hbs
+        simp at hn; omega
+      have := ih (buf ++ bs) (growLen buf buflen) cs' s' t hlen hseg' hs' hb' (by
+        intro q r hqr hq0 hr0
+        rw [List.append_assoc]
+        exact hq (bs ++ q) r (by rw [hqr, List.append_assoc]) (by simp [hq0]) hr0)
+      simpa [List.append_assoc] using this
+
+/-- the decidable form of "the prompt ends no proper non-empty prefix": used for examples -/
+def promptInside (buf s : Bytes) : Bool :=
+  (List.range s.length).any fun k => 0 < k && endsWith (buf ++ s.take k) prompt
+
+theorem promptInside_false (buf s : Bytes) (h : promptInside buf s = false) :
+    ∀ q r, s = q ++ r → q ≠ [] → r ≠ [] → endsWith (buf ++ q) prompt = false := by
+  intro q r hs hq hr
+  unfold promptInside at h
+  rw [← Bool.not_eq_true, List.any_eq_true] at h
+  by_cases he : endsWith (buf ++ q) prompt = true
+  · exfalso; apply h
+    refine ⟨q.length, ?_, ?_⟩
+    · have : 0 < r.length := List.length_pos_iff.mpr hr
+      simp [hs]; omega
+    · have : 0 < q.length := List.length_pos_iff.mpr hq
+      simp [hs, he, this]
+  · simpa using he
+
+/-- what the loop does with the end of the script -/
+theorem recv_nil (buf : Bytes) (buflen : Nat) (h : buf.length ≤ buflen) : recv buf buflen [] = (.error 7, []) := by
+  rw [recv_step _ _ _ h]; rfl
+theorem recv_eof (buf : Bytes) (buflen : Nat) (r : List Chunk) (h : buf.length ≤ buflen) : recv buf buflen (.eof :: r) = (.error 7, r) := by
+  rw [recv_step _ _ _ h]; rfl
+theorem recv_empty (buf : Bytes) (buflen : Nat) (r : List Chunk) (h : buf.length ≤ buflen) : recv buf buflen (.data [] :: r) = (.error 7, r) := by
+  rw [recv_step _ _ _ h]; rfl
+theorem recv_err (buf : Bytes) (buflen : Nat) (r : List Chunk) (h : buf.length ≤ buflen) : recv buf buflen (.err :: r) = (.error 1, r) := by
+  rw [recv_step _ _ _ h]; rfl
+
+/-- the stream ends (or fails) after bytes `s` none of whose non-empty prefixes ends with the prompt -/
+theorem recv_seg_noprompt {cs : List Chunk} {s : Bytes} {t : List Chunk} (hseg : Seg cs s t)
+    (hq : ∀ q r, s = q ++ r → q ≠ [] → endsWith q prompt = false) :
+    ∃ buflen', s.length ≤ buflen' ∧ recv [] 0 cs = recv s buflen' t := by
+  by_cases hs : s = []
+  · subst hs
+    have := Seg_nil_inv hseg; subst this
+    exact ⟨0, by simp, rfl⟩
+  · rcases recv_seg s.length [] 0 cs s t (Nat.le_refl _) hseg hs (by simp) (fun q r h1 h2 _ => by simpa using hq q r h1 h2) with h | h
+    · have := hq s [] (by simp) hs
+      simp [this] at h
+    · obtain ⟨_, b, hb, he⟩ := h
+      exact ⟨b, by simpa using hb, by simpa using he⟩
+
+/-! ### the CLI's loops never run out of fuel -/
+
+theorem readStr_succ (fuel : Nat) (acc : Bytes) (cs : List Chunk) :
+    readStr (fuel + 1) acc cs =
+      match readK cs 1 with
+      | (none, cs') => (.error "powerman: EOF on read\n", cs')
+      | (some none, cs') => (.error "powerman: read: Connection reset by peer\n", cs')
+      | (some (some bs), cs') =>
+        if endsWith (acc ++ bs) crlf then (.ok ((acc ++ bs).take ((acc ++ bs).length - 2)), cs') else readStr fuel (acc ++ bs) cs' := by
+  rw [readStr]; rfl
+
+theorem readStr_nofuel (fuel : Nat) (acc : Bytes) (cs : List Chunk) (h : chunkBytes cs < fuel) :
+    (readStr fuel acc cs).1 ≠ .error "fuel" ∧ chunkBytes (readStr fuel acc cs).2 ≤ chunkBytes cs ∧
+    (∀ x, (readStr fuel acc cs).1 = .ok x → chunkBytes (readStr fuel acc cs).2 < chunkBytes cs) := by
+  induction fuel generalizing acc cs with
+  | zero => omega
+  | succ fuel ih =>
+    rw [readStr_succ]
+    have hle := readK_le cs 1
+    generalize hr : readK cs 1 = r at hle
+    obtain ⟨x, cs'⟩ := r
+    rcases x with _ | _ | bs
+    · exact ⟨by simp, hle, by simp⟩
+    · exact ⟨by simp, hle, by simp⟩
+    · have hm := readK_measure cs 1 bs cs' (by omega) hr
+      simp only
+      split
+      · exact ⟨by simp, hle, fun _ _ => hm⟩
+      · have := ih (acc ++ bs) cs' (by omega)
+        exact ⟨this.1, by omega, fun x hx => by have := this.2.2 x hx; omega⟩
+
+theorem expectLoop_succ (fuel : Nat) (acc : Bytes) (need : Nat) (cs : List Chunk) :
+    expectLoop (fuel + 1) acc need cs =
+      match readK cs need with
+      | (none, cs') => (.error "powerman: lost connection with server\n", cs')
+      | (some none, cs') => (.error "powerman: lost connection with server: Connection reset by peer\n", cs')
+      | (some (some bs), cs') =>
+        if need - bs.length == 0 then (.ok (acc ++ bs), cs') else expectLoop fuel (acc ++ bs) (need - bs.length) cs' := by
+  rw [expectLoop]; rfl
+
+theorem expectLoop_nofuel (fuel : Nat) (acc : Bytes) (need : Nat) (cs : List Chunk) (h : need < fuel) :
+    (expectLoop fuel acc need cs).1 ≠ .error "fuel" ∧ chunkBytes (expectLoop fuel acc need cs).2 ≤ chunkBytes cs := by
+  induction fuel generalizing acc need cs with
+  | zero => omega
+  | succ fuel ih =>
+    rw [expectLoop_succ]
+    have hle := readK_le cs need
+    generalize hr : readK cs need = r at hle
+    obtain ⟨x, cs'⟩ := r
+    rcases x with _ | _ | bs
+    · exact ⟨by simp, hle⟩
+    · exact ⟨by simp, hle⟩
+    · simp only
+      split
+      · exact ⟨by simp, hle⟩
+      · rename_i hne
+        have hpos : 0 < need := by
+          rcases Nat.eq_zero_or_pos need with h0 | h0
+          · simp [h0] at hne
+          · exact h0
+        have hb := readK_bounds cs need bs cs' hpos hr
+        have := ih (acc ++ bs) (need - bs.length) cs' (by omega)
+        exact ⟨this.1, by simp only at hle; omega⟩
+
+theorem expect_nofuel (s : Bytes) (cs : List Chunk) :
+    (expect s cs).1 ≠ .error "fuel" ∧ chunkBytes (expect s cs).2 ≤ chunkBytes cs := by
+  unfold expect
+  have := expectLoop_nofuel (s.length + 1) [] s.length cs (by omega)
+  generalize expectLoop (s.length + 1) [] s.length cs = r at this
+  obtain ⟨x, cs'⟩ := r
+  cases x with
+  | error m => simpa using this
+  | ok got =>
+    simp only at this ⊢
+    split
+    · exact ⟨by simp, this.2⟩
+    · exact ⟨by simp, this.2⟩
+
+theorem processLine_nofuel (c : Cli) :
+    (processLine c).1 ≠ .error "fuel" ∧ chunkBytes (processLine c).2.cs ≤ chunkBytes c.cs ∧
+    (∀ x, (processLine c).1 = .ok x → chunkBytes (processLine c).2.cs < chunkBytes c.cs) := by
+  unfold processLine
+  have := readStr_nofuel (chunkBytes c.cs + 2) [] c.cs (by omega)
+  generalize readStr (chunkBytes c.cs + 2) [] c.cs = r at this
+  obtain ⟨x, cs'⟩ := r
+  cases x with
+  | error m => simpa using this
+  | ok raw =>
+    have h3 := this.2.2 raw rfl
+    simp only at this h3 ⊢
+    split
+    · split
+      · exact ⟨by simp, this.2.1, fun _ _ => h3⟩
+      · split
+        · exact ⟨by simp, this.2.1, fun _ _ => h3⟩
+        · exact ⟨by simp, this.2.1, fun _ _ => h3⟩
+    · exact ⟨by simp, this.2.1, by simp⟩
+
+theorem processResponse_succ (fuel : Nat) (c : Cli) :
+    processResponse (fuel + 1) c =
+      match processLine c with
+      | (.error m, c) => (.error m, c)
+      | (.ok num, c) =>
+        if 100 ≤ num && num < 300 then (.ok (if 200 ≤ num then num else 0), c) else processResponse fuel c := by
+  rw [processResponse]; rfl
+
+theorem processResponse_nofuel (fuel : Nat) (c : Cli) (h : chunkBytes c.cs < fuel) :
+    (processResponse fuel c).1 ≠ .error "fuel" ∧ chunkBytes (processResponse fuel c).2.cs ≤ chunkBytes c.cs := by
+  induction fuel generalizing c with
+  | zero => omega
+  | succ fuel ih =>
+    rw [processResponse_succ]
+    have := processLine_nofuel c
+    generalize processLine c = r at this
+    obtain ⟨x, c'⟩ := r
+    cases x with
+    | error m => exact ⟨by simpa using this.1, this.2.1⟩
+    | ok num =>
+      have h3 := this.2.2 num rfl
+      simp only at h3 ⊢
+      split
+      · exact ⟨by simp, this.2.1⟩
+      · have := ih c' (by omega)
+        exact ⟨this.1, by omega⟩
+
+/-- one exchange of `main`: the response, then the prompt -/
+def exchange (fuel : Nat) (c : Cli) : Except String Int × Cli :=
+  match processResponse fuel c with
+  | (.error m, c) => (.error m, c)
+  | (.ok res, c) =>
+    match expect prompt c.cs with
+    | (.error m, cs') => (.error m, { c with cs := cs' })
+    | (.ok (), cs') => (.ok res, { c with cs := cs' })
+
+theorem exchange_nofuel (fuel : Nat) (c : Cli) (h : chunkBytes c.cs < fuel) :
+    (exchange fuel c).1 ≠ .error "fuel" ∧ chunkBytes (exchange fuel c).2.cs ≤ chunkBytes c.cs := by
+  unfold exchange
+  have := processResponse_nofuel fuel c h
+  generalize processResponse fuel c = r at this
+  obtain ⟨x, c'⟩ := r
+  cases x with
+  | error m => exact ⟨by simpa using this.1, this.2⟩
+  | ok res =>
+    simp only at this ⊢
+    have he := expect_nofuel prompt c'.cs
+    generalize expect prompt c'.cs = r at he
+    obtain ⟨y, cs'⟩ := r
+    cases y with
+    | error m => exact ⟨by simpa using he.1, by simp only at he ⊢; omega⟩
+    | ok u => exact ⟨by simp, by simp only at he ⊢; omega⟩
+
+theorem run_zero (f : Cli → Except String Int × Cli) (c : Cli) : cliRun.run f 0 c = (.ok 0, c) := by
+  rw [cliRun.run]
+theorem run_succ (f : Cli → Except String Int × Cli) (k : Nat) (c : Cli) :
+    cliRun.run f (k + 1) c =
+      match f c with
+      | (.error m, c) => (.error m, c)
+      | (.ok res, c) => if res != 0 then (.ok res, c) else cliRun.run f k c := by
+  rw [cliRun.run]; rfl
+
+theorem run_nofuel (fuel k : Nat) (c : Cli) (h : chunkBytes c.cs < fuel) :
+    (cliRun.run (exchange fuel) k c).1 ≠ .error "fuel" ∧ chunkBytes (cliRun.run (exchange fuel) k c).2.cs ≤ chunkBytes c.cs := by
+  induction k generalizing c with
+  | zero => rw [run_zero]; exact ⟨by simp, Nat.le_refl _⟩
+  | succ k ih =>
+    rw [run_succ]
+    have := exchange_nofuel fuel c h
+    generalize exchange fuel c = r at this
+    obtain ⟨x, c'⟩ := r
+    cases x with
+    | error m => exact ⟨by simpa using this.1, this.2⟩
+    | ok res =>
+      simp only at this ⊢
+      split
+      · exact ⟨by simp, this.2⟩
+      · have := ih c' (by omega)
+        exact ⟨this.1, by omega⟩
+
+/-- `_process_version`: the banner line, the version scan and the optional warning -/
+def stageVersion (o : CliOpts) (fuel : Nat) (c : Cli) : Except String Unit × Cli :=
+  match readStr fuel [] c.cs with
+  | (.error m, cs') => (.error m, { c with cs := cs' })
+  | (.ok raw, cs') =>
+    let c := { c with cs := cs' }
+    match scanVersion (cstr raw) with
+    | none => (.error "powerman: unexpected response from server\n", c)
+    | some v =>
+      (.ok (), if v != o.version then { c with errs := c.errs ++ str "powerman: warning: server version (" ++ v ++ str ") != client (" ++ o.version ++ str ")\n" } else c)
+
+/-- `_expect` on the CLI state -/
+def expectC (s : Bytes) (c : Cli) : Except String Unit × Cli :=
+  match expect s c.cs with
+  | (.error m, cs') => (.error m, { c with cs := cs' })
+  | (.ok (), cs') => (.ok (), { c with cs := cs' })
+
+def exchanges (o : CliOpts) : Nat := (if o.telemetry then 1 else 0) + (if o.exprange then 1 else 0) + 1
+
+/-- `cliRun` with the reason of a failure kept apart: `.error m` = the run printed `m` and called `exit(1)`,
+    `.ok res` = it reached `exit(res)` -/
+def cliCore (o : CliOpts) (cs : List Chunk) : Except String Int × Cli :=
+  let fuel := chunkBytes cs + 2
+  match stageVersion o fuel { cs := cs } with
+  | (.error m, c) => (.error m, c)
+  | (.ok (), c) =>
+    match expectC prompt c with
+    | (.error m, c) => (.error m, c)
+    | (.ok (), c) =>
+      match cliRun.run (exchange fuel) (exchanges o) c with
+      | (.error m, c) => (.error m, c)
+      | (.ok res, c) =>
+        match expectC goodbye c with
+        | (.error m, c) => (.error m, c)
+        | (.ok (), _) => (.ok res, c)
+
+def cliFinish : Except String Int × Cli → Int × Bytes × Bytes
+  | (.error m, c) => (1, c.out, c.errs ++ str m)
+  | (.ok res, c) => (res, c.out, c.errs)
+
+theorem cliRun_eq (o : CliOpts) (cs : List Chunk) : cliRun o cs = cliFinish (cliCore o cs) := by
+  unfold cliRun cliCore stageVersion expectC
+  simp only
+  generalize readStr (chunkBytes cs + 2) [] cs = r1
+  obtain ⟨x1, cs1⟩ := r1
+  cases x1 with
+  | error m => rfl
+  | ok raw =>
+    simp only
+    cases scanVersion (cstr raw) with
+    | none => rfl
+    | some v =>
+      simp only
+      generalize (if (v != o.version) = true then ({ cs := cs1, errs := [] ++ str "powerman: warning: server version (" ++ v ++ str ") != client (" ++ o.version ++ str ")\n" } : Cli) else { cs := cs1 }) = c0
+      generalize expect prompt c0.cs = r2
+      obtain ⟨x2, cs2⟩ := r2
+      cases x2 with
+      | error m => rfl
+      | ok u =>
+        simp only
+        show (match cliRun.run (exchange (chunkBytes cs + 2)) (exchanges o) ({ cs := cs2, out := c0.out, errs := c0.errs } : Cli) with
+          | (Except.error m, c) => ((1 : Int), c.out, c.errs ++ str m)
+          | (Except.ok res, c) =>
+            match expect goodbye c.cs with
+            | (Except.error m, cs') => (1, c.out, c.errs ++ str m)
+            | (Except.ok PUnit.unit, _) => (res, c.out, c.errs)) = _
+        generalize cliRun.run (exchange (chunkBytes cs + 2)) (exchanges o) _ = r3
+        obtain ⟨x3, c3⟩ := r3
+        cases x3 with
+        | error m => rfl
+        | ok res =>
+          simp only
+          generalize expect goodbye c3.cs = r4
+          obtain ⟨x4, cs4⟩ := r4
+          cases x4 with
+          | error m => rfl
+          | ok u => rfl
+
+theorem stageVersion_nofuel (o : CliOpts) (fuel : Nat) (c : Cli) (h : chunkBytes c.cs < fuel) :
+    (stageVersion o fuel c).1 ≠ .error "fuel" ∧ chunkBytes (stageVersion o fuel c).2.cs ≤ chunkBytes c.cs := by
+  unfold stageVersion
+  have := readStr_nofuel fuel [] c.cs h
+  generalize readStr fuel [] c.cs = r at this
+  obtain ⟨x, cs'⟩ := r
+  cases x with
+  | error m => exact ⟨by simpa using this.1, this.2.1⟩
+  | ok raw =>
+    simp only at this ⊢
+    cases scanVersion (cstr raw) with
+    | none => exact ⟨by simp, this.2.1⟩
+    | some v =>
+      simp only
+      split
+      · exact ⟨by simp, this.2.1⟩
+      · exact ⟨by simp, this.2.1⟩
+
+theorem expectC_nofuel (s : Bytes) (c : Cli) :
+    (expectC s c).1 ≠ .error "fuel" ∧ chunkBytes (expectC s c).2.cs ≤ chunkBytes c.cs := by
+  unfold expectC
+  have := expect_nofuel s c.cs
+  generalize expect s c.cs = r at this
+  obtain ⟨x, cs'⟩ := r
+  cases x with
+  | error m => exact ⟨by simpa using this.1, this.2⟩
+  | ok u => exact ⟨by simp, this.2⟩
+
+/-- no run of the CLI ends because a loop of the model ran out of fuel: every loop ends by itself -/
+theorem cliCore_nofuel (o : CliOpts) (cs : List Chunk) : (cliCore o cs).1 ≠ .error "fuel" := by
+  unfold cliCore
+  simp only
+  have h1 := stageVersion_nofuel o (chunkBytes cs + 2) { cs := cs } (by simp)
+  generalize stageVersion o (chunkBytes cs + 2) { cs := cs } = r1 at h1
+  obtain ⟨x1, c1⟩ := r1
+  cases x1 with
+  | error m => simpa using h1.1
+  | ok u =>
+    simp only at h1 ⊢
+    have h2 := expectC_nofuel prompt c1
+    generalize expectC prompt c1 = r2 at h2
+    obtain ⟨x2, c2⟩ := r2
+    cases x2 with
+    | error m => simpa using h2.1
+    | ok u =>
+      simp only at h2 ⊢
+      have h3 := run_nofuel (chunkBytes cs + 2) (exchanges o) c2 (by omega)
+      generalize cliRun.run (exchange (chunkBytes cs + 2)) (exchanges o) c2 = r3 at h3
+      obtain ⟨x3, c3⟩ := r3
+      cases x3 with
+      | error m => simpa using h3.1
+      | ok res =>
+        simp only at h3 ⊢
+        have h4 := expectC_nofuel goodbye c3
+        generalize expectC goodbye c3 = r4 at h4
+        obtain ⟨x4, c4⟩ := r4
+        cases x4 with
+        | error m => simpa using h4.1
+        | ok u => simp
+
+/-! ### `sscanf("%d")` and `strtol` on a reply line -/
+
+theorem isDigit_iff (a : UInt8) : isDigit a = true ↔ 48 ≤ a.toNat ∧ a.toNat ≤ 57 := by
+  simp [isDigit]
+
+theorem isSpace_iff (a : UInt8) : isSpace a = true ↔ a.toNat = 32 ∨ (9 ≤ a.toNat ∧ a.toNat ≤ 13) := by
+  unfold isSpace
+  simp only [Bool.or_eq_true, beq_iff_eq, Bool.and_eq_true, decide_eq_true_eq]
+  constructor
+  · rintro (h | h)
+    · subst h; left; rfl
+    · right; exact h
+  · rintro (h | h)
+    · left; exact UInt8.toNat_inj.mp h
+    · right; exact h
+
+theorem toInt32_small (n : Nat) (h : n < 2147483648) : toInt32 (n : Int) = n := by
+  unfold toInt32
+  simp only
+  have : ((n : Int) % 4294967296) = n := by omega
+  rw [this]
+  split
+  · omega
+  · rfl
+
+theorem takeWhile_digits (ds rest : Bytes) (hd : ∀ d ∈ ds, isDigit d = true) (hr : ∀ x r, rest = x :: r → isDigit x = false) :
+    List.takeWhile isDigit (ds ++ rest) = ds := by
+  rw [List.takeWhile_append_of_pos (by simpa using hd)]
+  cases rest with
+  | nil => simp
+  | cons x r => simp [hr x r rfl]
+
+/-- `sscanf(s, "%d")` on a string that starts with digits -/
+theorem scanInt_digits (ds : Bytes) (rest : Bytes) (hd : ∀ d ∈ ds, isDigit d = true) (hne : ds ≠ [])
+    (hr : ∀ x r, rest = x :: r → isDigit x = false) (hv : digitsVal ds < 2147483648) :
+    scanInt (ds ++ rest) = some (digitsVal ds : Int) := by
+  have htw := takeWhile_digits ds rest hd hr
+  obtain ⟨a, ds', rfl⟩ := List.exists_cons_of_ne_nil hne
+  have ha := (isDigit_iff a).mp (hd a (by simp))
+  have hsp : isSpace a = false := by
+    rw [← Bool.not_eq_true, isSpace_iff]; omega
+  have h45 : a ≠ 45 := by intro h; subst h; simp at ha
+  have h43 : a ≠ 43 := by intro h; subst h; simp at ha
+  unfold scanInt
+  simp only [List.cons_append, List.dropWhile_cons, hsp, Bool.false_eq_true, ↓reduceIte]
+  split
+  · rename_i r h; simp at h; exact absurd h.1 h45
+  · rename_i r h; simp at h; exact absurd h.1 h43
+  · rw [← List.cons_append]
+    simp only [htw]
+    simp only [List.isEmpty_cons, Bool.false_eq_true, ↓reduceIte]
+    have : ¬ ((digitsVal (a :: ds') : Int) > 9223372036854775807) := by omega
+    simp only [this, ↓reduceIte]
+    rw [toInt32_small _ hv]
+
+/-- `strtol(s, NULL, 10)` (as the CLI clamps it) on a string that starts with digits -/
+theorem strtolCli_digits (ds : Bytes) (rest : Bytes) (hd : ∀ d ∈ ds, isDigit d = true) (hne : ds ≠ [])
+    (hr : ∀ x r, rest = x :: r → isDigit x = false) (hv : digitsVal ds < 2147483648) :
+    strtolCli (ds ++ rest) = (digitsVal ds : Int) := by
+  have htw := takeWhile_digits ds rest hd hr
+  obtain ⟨a, ds', rfl⟩ := List.exists_cons_of_ne_nil hne
+  have ha := (isDigit_iff a).mp (hd a (by simp))
+  have hsp : isSpace a = false := by
+    rw [← Bool.not_eq_true, isSpace_iff]; omega
+  have h45 : a ≠ 45 := by intro h; subst h; simp at ha
+  have h43 : a ≠ 43 := by intro h; subst h; simp at ha
+  unfold strtolCli
+  simp only [List.cons_append, List.dropWhile_cons, hsp, Bool.false_eq_true, ↓reduceIte]
+  split
+  · rename_i r h; simp at h; exact absurd h.1 h45
+  · rename_i r h; simp at h; exact absurd h.1 h43
+  · rw [← List.cons_append]
+    simp only [htw]
+    have : ¬ ((digitsVal (a :: ds') : Int) ≥ 9223372036854775807) := by omega
+    simp only [this, Bool.false_eq_true, ↓reduceIte]
+
+/-- the three decimal digits of a reply code -/
+def digits3 (n : Nat) : Bytes := [UInt8.ofNat (48 + n / 100), UInt8.ofNat (48 + n / 10 % 10), UInt8.ofNat (48 + n % 10)]
+
+theorem digits3_val (n : Nat) (h : n < 1000) : digitsVal (digits3 n) = n := by
+  simp [digitsVal, digits3, UInt8.toNat_ofNat]
+  omega
+
+theorem digits3_digits (n : Nat) (h : n < 1000) : ∀ d ∈ digits3 n, isDigit d = true := by
+  intro d hd
+  simp only [digits3, List.mem_cons, List.not_mem_nil, or_false] at hd
+  rw [isDigit_iff]
+  rcases hd with rfl | rfl | rfl <;> simp [UInt8.toNat_ofNat] <;> omega
+
+theorem cstr_append_of_nonul (a b : Bytes) (h : ∀ x ∈ a, x ≠ 0) : cstr (a ++ b) = a ++ cstr b := by
+  unfold cstr
+  rw [List.takeWhile_append_of_pos (by simpa using h)]
+
+theorem cstr_of_nonul (a : Bytes) (h : ∀ x ∈ a, x ≠ 0) : cstr a = a := by
+  have := cstr_append_of_nonul a [] h
+  simpa [cstr] using this
+
+theorem digit_ne_zero (d : UInt8) (h : isDigit d = true) : d ≠ 0 := by
+  intro h0; subst h0; simp [isDigit] at h
+
+theorem cstr_digits3 (n : Nat) (h : n < 1000) (text : Bytes) : cstr (digits3 n ++ 32 :: text) = digits3 n ++ 32 :: cstr text := by
+  rw [cstr_append_of_nonul _ _ (fun x hx => digit_ne_zero x (digits3_digits n h x hx))]
+  congr 1
+
+/-- a conforming line `NNN␠text`: `sscanf("%d")` sees `NNN` -/
+theorem scanInt_line (n : Nat) (h : n < 1000) (text : Bytes) : scanInt (cstr (digits3 n ++ 32 :: text)) = some (n : Int) := by
+  rw [cstr_digits3 n h, scanInt_digits _ _ (digits3_digits n h) (by simp [digits3]) (by
+    intro x r hx; simp at hx; rw [← hx.1]; rfl) (by rw [digits3_val n h]; omega), digits3_val n h]
+
+theorem strtolCli_line (n : Nat) (h : n < 1000) (text : Bytes) : strtolCli (cstr (digits3 n ++ 32 :: text)) = (n : Int) := by
+  rw [cstr_digits3 n h, strtolCli_digits _ _ (digits3_digits n h) (by simp [digits3]) (by
+    intro x r hx; simp at hx; rw [← hx.1]; rfl) (by rw [digits3_val n h]; omega), digits3_val n h]
+
+/-! ### `_server_retcode` -/
+
+/-- what one line contributes to the verdict -/
+def verdict (l : Bytes) : Option Nat :=
+  match scanInt (cstr l) with
+  | some c => if successCodes.contains c then some 0 else if failureCodes.contains c then some c.toNat else none
+  | none => none
+
+theorem retcode_nil : retcode [] = 8 := rfl
+
+theorem retcode_cons (l : Bytes) (ls : List Bytes) : retcode (l :: ls) = (verdict l).getD (retcode ls) := by
+  unfold retcode verdict
+  rw [List.reverse_cons, List.foldl_append, List.foldl_cons, List.foldl_nil]
+  cases scanInt (cstr l) with
+  | none => rfl
+  | some c =>
+    simp only
+    split
+    · rfl
+    · split <;> rfl
+
+theorem retcode_none (ls : List Bytes) (h : ∀ l ∈ ls, verdict l = none) : retcode ls = 8 := by
+  induction ls with
+  | nil => rfl
+  | cons l ls ih =>
+    rw [retcode_cons, h l (by simp), Option.getD_none]
+    exact ih (fun x hx => h x (by simp [hx]))
+
+/-- the first line (in stream order) with a 1xx/2xx code decides -/
+theorem retcode_first (pre post : List Bytes) (l : Bytes) (r : Nat) (hpre : ∀ x ∈ pre, verdict x = none)
+    (hl : verdict l = some r) : retcode (pre ++ l :: post) = r := by
+  induction pre with
+  | nil => simp [retcode_cons, hl]
+  | cons p pre ih =>
+    rw [List.cons_append, retcode_cons, hpre p (by simp), Option.getD_none]
+    exact ih (fun x hx => hpre x (by simp [hx]))
+
+theorem verdict_none_iff (l : Bytes) :
+    verdict l = none ↔ ∀ d, scanInt (cstr l) = some d → d ∉ successCodes ∧ d ∉ failureCodes := by
+  unfold verdict
+  cases scanInt (cstr l) with
+  | none => simp
+  | some c =>
+    simp only [Option.some.injEq, forall_eq']
+    by_cases h1 : c ∈ successCodes
+    · simp [h1]
+    · by_cases h2 : c ∈ failureCodes
+      · simp [h1, h2]
+      · simp [h1, h2]
+
+theorem failure_pos (c : Int) (h : c ∈ failureCodes) : 0 < c := by
+  simp only [failureCodes, List.mem_cons, List.not_mem_nil, or_false] at h
+  omega
+
+theorem verdict_of_scan (l : Bytes) (c : Int) (h : scanInt (cstr l) = some c) (hc : c ∈ successCodes ∨ c ∈ failureCodes) :
+    verdict l = some (if c ∈ successCodes then 0 else c.toNat) := by
+  unfold verdict
+  rw [h]
+  by_cases h1 : c ∈ successCodes
+  · simp [h1]
+  · have h2 : c ∈ failureCodes := by rcases hc with h | h; exact absurd h h1; exact h
+    simp [h1, h2]
+
+theorem verdict_zero (l : Bytes) (h : verdict l = some 0) : ∃ c ∈ successCodes, scanInt (cstr l) = some c := by
+  unfold verdict at h
+  cases hs : scanInt (cstr l) with
+  | none => simp [hs] at h
+  | some c =>
+    rw [hs] at h
+    simp only at h
+    by_cases h1 : c ∈ successCodes
+    · exact ⟨c, h1, rfl⟩
+    · by_cases h2 : c ∈ failureCodes
+      · have := failure_pos c h2
+        simp [h1, h2] at h
+        omega
+      · simp [h1, h2] at h
+
+theorem retcode_zero (ls : List Bytes) (h : retcode ls = 0) : ∃ l ∈ ls, ∃ c ∈ successCodes, scanInt (cstr l) = some c := by
+  induction ls with
+  | nil => simp [retcode_nil] at h
+  | cons l ls ih =>
+    rw [retcode_cons] at h
+    cases hv : verdict l with
+    | none =>
+      rw [hv, Option.getD_none] at h
+      obtain ⟨x, hx, hc⟩ := ih h
+      exact ⟨x, by simp [hx], hc⟩
+    | some r =>
+      rw [hv, Option.getD_some] at h
+      subst h
+      exact ⟨l, by simp, verdict_zero l hv⟩
+
 end Pm.LibPmModel
